@@ -1,9 +1,10 @@
 #!/bin/bash
-# tools/seeded-take.sh <prefix> <ID> <round> [verify args]: verify in scratch worktree, copy to seeded/, run check
-pre=$1; id=$2; round=$3; shift 3
+# tools/seeded-take.sh <prefix> <name> <seeded-dir-name> <property> [verify args]
+#   verify the change in its scratch worktree <prefix>-<name>, copy it to seeded/<dir>, run the check
+pre=$1; name=$2; dir=$3; prop=$4; shift 4
 export SEED_PREFIX=$pre
 cd "$(dirname "$0")/.."
-tools/seeded-verify.sh $id "$@" 2>&1 | grep -E "^==|^test result|does not apply"
-d=seeded/$id-$round; mkdir -p $d
-cp $pre-$id-out/patch.diff $d/; cp $pre-$id-out/demo.rs $d/demo_$(echo $id | tr A-Z a-z)_$round.rs; cp $pre-$id-out/notes.md $d/agent-notes.md
-tools/seeded-run.sh $id-$round $id quick
+timeout 600 tools/seeded-verify.sh $name "$@" 2>&1 | grep -E "^==|^test result|does not apply"
+d=seeded/$dir; mkdir -p $d
+cp $pre-$name-out/patch.diff $d/; cp $pre-$name-out/demo.rs $d/demo_$(echo $dir | tr A-Z a-z | tr - _).rs; cp $pre-$name-out/notes.md $d/agent-notes.md
+tools/seeded-run.sh $dir $prop quick
